@@ -95,6 +95,15 @@ Section Sim.
   | sr_eq : forall stk, nok stk -> stkrel stk stk
   | sr_k : forall f1 f2 r, isk f1 = true -> isk f2 = true -> par f1 = par f2 -> nok r -> stkrel (f1 :: r) (f2 :: r).
 
+  Lemma stkrel_inv : forall a b, stkrel a b ->
+    (a = b /\ nok a) \/
+    (exists f1 f2 r, a = f1 :: r /\ b = f2 :: r /\ isk f1 = true /\ isk f2 = true /\ par f1 = par f2 /\ nok r).
+  Proof.
+    intros a b H. destruct H as [stk Hn|f1 f2 r K1 K2 Hp Hn].
+    - left. split; [reflexivity|exact Hn].
+    - right. exists f1, f2, r. repeat split; assumption.
+  Qed.
+
   Definition strel (s1 s2 : st) : Prop :=
     once s1 = once s2 /\ starved s1 = starved s2
     /\ filter (not_k K) (taken s1) = filter (not_k K) (taken s2)
@@ -122,6 +131,28 @@ Section Sim.
     rewrite (step_bad_mono cur l stk s E) in H. discriminate H.
   Qed.
 
+  Lemma run_lines_cons : forall rec_file cur l r stk s, (forall f, l <> LInclude f) ->
+    run_lines K M opq rec_file cur (l :: r) stk s
+    = run_lines K M opq rec_file cur r (fst (step K M opq cur l stk s)) (snd (step K M opq cur l stk s)).
+  Proof.
+    intros rec_file cur l r stk s Hni.
+    destruct l; try (cbn [run_lines]; destruct (step K M opq cur _ stk s); reflexivity).
+    exfalso. apply (Hni f). reflexivity.
+  Qed.
+
+  Lemma run_lines_include : forall rec_file cur f r stk s,
+    run_lines K M opq rec_file cur (LInclude f :: r) stk s
+    = if active stk && negb (mem_nat f (once (chk_k stk s)))
+      then run_lines K M opq rec_file cur r stk (rec_file f (chk_k stk s))
+      else run_lines K M opq rec_file cur r stk (chk_k stk s).
+  Proof. reflexivity. Qed.
+
+  Lemma not_include_dec : forall l, (forall f, l <> LInclude f) \/ exists f, l = LInclude f.
+  Proof. destruct l; try (left; intros; discriminate). right. eexists. reflexivity. Qed.
+
+  Lemma chk_k_bad_mono : forall stk s, bad s = true -> bad (chk_k stk s) = true.
+  Proof. intros stk s H. unfold chk_k. destruct (in_k stk); simpl; auto. Qed.
+
   Section LinesMono.
     Variable rec_file : nat -> st -> st.
     Hypothesis rec_mono : forall f s, bad s = true -> bad (rec_file f s) = true.
@@ -129,12 +160,11 @@ Section Sim.
     Proof.
       intros cur ls. induction ls as [|l r IH]; intros stk s H.
       - simpl. destruct stk; simpl; auto.
-      - destruct l;
-          try (simpl; destruct (step K M opq cur _ stk s) as [stk' s'] eqn:E; apply IH;
-               change s' with (snd (stk', s')); rewrite <- E; apply step_bad_mono; exact H).
-        simpl. unfold chk_k.
-        destruct (in_k stk); simpl;
-          match goal with |- context [if ?b then _ else _] => destruct b end; apply IH; try apply rec_mono; simpl; auto.
+      - destruct (not_include_dec l) as [Hni|[f Hf]].
+        + rewrite run_lines_cons by exact Hni. apply IH. apply step_bad_mono. exact H.
+        + subst l. rewrite run_lines_include.
+          destruct (active stk && negb (mem_nat f (once (chk_k stk s)))); apply IH;
+            try apply rec_mono; apply chk_k_bad_mono; exact H.
     Qed.
   End LinesMono.
 
@@ -152,6 +182,9 @@ Section Sim.
   Proof. intros id t H. simpl. unfold not_k at 1. rewrite H. reflexivity. Qed.
   Lemma filter_notk_out : forall id t, memN id K = false -> filter (not_k K) (id :: t) = id :: filter (not_k K) t.
   Proof. intros id t H. simpl. unfold not_k at 1. rewrite H. reflexivity. Qed.
+
+  Ltac fin EK :=
+    unfold strel; simpl; unfold not_k; rewrite ?EK; simpl; repeat split; auto; try (f_equal; assumption).
 
   Ltac bad_contra :=
     match goal with
@@ -173,7 +206,7 @@ Section Sim.
     destruct l as [id c|id c|id| |m|m|f|].
     - (* LIf *)
       simpl in *. unfold chk_k in *.
-      inversion Hstk as [stk Hn|f1 f2 r K1 K2 Hp Hn]; subst.
+      destruct (stkrel_inv _ _ Hstk) as [[E Hn]|(f1 & f2 & r & E1 & E2 & K1 & K2 & Hp & Hn)]; [subst stk2; rename stk1 into stk|subst stk1 stk2].
       + assert (Hk : in_k stk = false) by (destruct stk as [|f r]; [reflexivity|simpl; apply (Hn f); left; reflexivity]).
         rewrite Hk in *.
         destruct (memN id K) eqn:EK.
@@ -181,62 +214,59 @@ Section Sim.
           split.
           -- apply sr_k; simpl; auto.
           -- destruct (active stk && eval opq (env s1) c), (active stk && eval opq (env s2) c);
-               unfold strel; simpl; rewrite ?(filter_notk_in id _ EK); auto.
+               fin EK.
         * assert (Ev : eval opq (env s1) c = eval opq (env s2) c).
-          { apply eval_agree with (M := M); [exact He|]. unfold covered in Hcov. simpl in Hcov. rewrite EK in Hcov. exact Hcov. }
+          { apply eval_agree with (M := M); [exact He|]. unfold covered in Hcov. simpl in Hcov. try rewrite EK in Hcov. exact Hcov. }
           rewrite Ev. split.
-          -- apply sr_eq. apply nok_cons; [simpl; exact EK|exact Hn].
-          -- destruct (active stk && eval opq (env s2) c); unfold strel; simpl;
-               rewrite ?(filter_notk_out id _ EK); auto. repeat split; auto. f_equal. exact Ht.
+          -- apply sr_eq. apply nok_cons; [simpl; try rewrite EK; auto|exact Hn].
+          -- destruct (active stk && eval opq (env s2) c); fin EK.
       + simpl in *. rewrite K1 in B1. destruct (on f1 && eval opq (env (set_bad s1)) c); simpl in B1; discriminate B1.
     - (* LElif *)
       simpl in *.
-      inversion Hstk as [stk Hn|f1 f2 r K1 K2 Hp Hn]; subst.
+      destruct (stkrel_inv _ _ Hstk) as [[E Hn]|(f1 & f2 & r & E1 & E2 & K1 & K2 & Hp & Hn)]; [subst stk2; rename stk1 into stk|subst stk1 stk2].
       + destruct stk as [|f r]; [simpl in B1; discriminate B1|].
         pose proof (nok_head _ _ Hn) as Hf. rewrite Hf in *.
         destruct (memN id K) eqn:EK; simpl in *.
         * destruct (par f && negb (done f) && eval opq (env (set_bad s1)) c); simpl in B1; discriminate B1.
         * assert (Ev : eval opq (env s1) c = eval opq (env s2) c).
-          { apply eval_agree with (M := M); [exact He|]. unfold covered in Hcov. simpl in Hcov. rewrite EK in Hcov. exact Hcov. }
+          { apply eval_agree with (M := M); [exact He|]. unfold covered in Hcov. simpl in Hcov. try rewrite EK in Hcov. exact Hcov. }
           rewrite Ev. split.
           -- apply sr_eq. apply nok_cons; [simpl; exact Hf|exact (nok_tail _ _ Hn)].
-          -- destruct (par f && negb (done f) && eval opq (env s2) c); unfold strel; simpl;
-               rewrite ?(filter_notk_out id _ EK); auto. repeat split; auto. f_equal. exact Ht.
+          -- destruct (par f && negb (done f) && eval opq (env s2) c); fin EK.
       + rewrite K1, K2 in *.
         destruct (memN id K) eqn:EK; simpl in *.
         * split.
           -- apply sr_k; simpl; auto.
           -- destruct (par f1 && negb (done f1) && eval opq (env s1) c), (par f2 && negb (done f2) && eval opq (env s2) c);
-               unfold strel; simpl; rewrite ?(filter_notk_in id _ EK); auto.
+               fin EK.
         * destruct (par f1 && negb (done f1) && eval opq (env (set_bad s1)) c); simpl in B1; discriminate B1.
     - (* LElse *)
       simpl in *.
-      inversion Hstk as [stk Hn|f1 f2 r K1 K2 Hp Hn]; subst.
+      destruct (stkrel_inv _ _ Hstk) as [[E Hn]|(f1 & f2 & r & E1 & E2 & K1 & K2 & Hp & Hn)]; [subst stk2; rename stk1 into stk|subst stk1 stk2].
       + destruct stk as [|f r]; [simpl in B1; discriminate B1|].
         pose proof (nok_head _ _ Hn) as Hf. rewrite Hf in *.
         destruct (memN id K) eqn:EK; simpl in *.
         * destruct (par f && negb (done f)); simpl in B1; discriminate B1.
         * split.
           -- apply sr_eq. apply nok_cons; [simpl; exact Hf|exact (nok_tail _ _ Hn)].
-          -- destruct (par f && negb (done f)); unfold strel; simpl;
-               rewrite ?(filter_notk_out id _ EK); auto. repeat split; auto. f_equal. exact Ht.
+          -- destruct (par f && negb (done f)); fin EK.
       + rewrite K1, K2 in *.
         destruct (memN id K) eqn:EK; simpl in *.
         * split.
           -- apply sr_k; simpl; auto.
           -- destruct (par f1 && negb (done f1)), (par f2 && negb (done f2));
-               unfold strel; simpl; rewrite ?(filter_notk_in id _ EK); auto.
+               fin EK.
         * destruct (par f1 && negb (done f1)); simpl in B1; discriminate B1.
     - (* LEndif *)
       simpl in *.
-      inversion Hstk as [stk Hn|f1 f2 r K1 K2 Hp Hn]; subst.
+      destruct (stkrel_inv _ _ Hstk) as [[E Hn]|(f1 & f2 & r & E1 & E2 & K1 & K2 & Hp & Hn)]; [subst stk2; rename stk1 into stk|subst stk1 stk2].
       + destruct stk as [|f r]; [simpl in B1; discriminate B1|]. simpl. split.
         * apply sr_eq. exact (nok_tail _ _ Hn).
         * unfold strel. auto.
       + simpl. split; [apply sr_eq; exact Hn|unfold strel; auto].
     - (* LDefine *)
       simpl in *. unfold chk_m in *.
-      inversion Hstk as [stk Hn|f1 f2 r K1 K2 Hp Hn]; subst.
+      destruct (stkrel_inv _ _ Hstk) as [[E Hn]|(f1 & f2 & r & E1 & E2 & K1 & K2 & Hp & Hn)]; [subst stk2; rename stk1 into stk|subst stk1 stk2].
       + assert (Hk : in_k stk = false) by (destruct stk as [|f r]; [reflexivity|simpl; apply (Hn f); left; reflexivity]).
         rewrite Hk in *. simpl in *. split; [exact Hstk|].
         destruct (active stk); unfold strel; simpl; auto. repeat split; auto. apply agree_add. exact He.
@@ -249,7 +279,7 @@ Section Sim.
           -- apply agree_add_r; assumption.
     - (* LUndef *)
       simpl in *. unfold chk_m in *.
-      inversion Hstk as [stk Hn|f1 f2 r K1 K2 Hp Hn]; subst.
+      destruct (stkrel_inv _ _ Hstk) as [[E Hn]|(f1 & f2 & r & E1 & E2 & K1 & K2 & Hp & Hn)]; [subst stk2; rename stk1 into stk|subst stk1 stk2].
       + assert (Hk : in_k stk = false) by (destruct stk as [|f r]; [reflexivity|simpl; apply (Hn f); left; reflexivity]).
         rewrite Hk in *. simpl in *. split; [exact Hstk|].
         destruct (active stk); unfold strel; simpl; auto. repeat split; auto. apply agree_del. exact He.
@@ -263,7 +293,7 @@ Section Sim.
     - exfalso. apply (Hni f). reflexivity.
     - (* LOnce *)
       simpl in *. unfold chk_k in *.
-      inversion Hstk as [stk Hn|f1 f2 r K1 K2 Hp Hn]; subst.
+      destruct (stkrel_inv _ _ Hstk) as [[E Hn]|(f1 & f2 & r & E1 & E2 & K1 & K2 & Hp & Hn)]; [subst stk2; rename stk1 into stk|subst stk1 stk2].
       + assert (Hk : in_k stk = false) by (destruct stk as [|f r]; [reflexivity|simpl; apply (Hn f); left; reflexivity]).
         rewrite Hk in *. split; [exact Hstk|].
         destruct (active stk); unfold strel; simpl; auto. repeat split; auto. f_equal. exact Ho.
@@ -285,48 +315,40 @@ Section Sim.
       strel (run_lines K M opq rec_file cur ls stk1 s1) (run_lines K M opq rec_file cur ls stk2 s2).
     Proof.
       intros cur ls. induction ls as [|l r IH]; intros stk1 s1 stk2 s2 Hcov Hstk Hst B1 B2.
-      - simpl in *. inversion Hstk as [stk Hn|f1 f2 r' K1 K2 Hp Hn]; subst.
+      - simpl in *. destruct (stkrel_inv _ _ Hstk) as [[E Hn]|(f1 & f2 & r' & E1 & E2 & K1 & K2 & Hp & Hn)]; [subst stk2; rename stk1 into stk|subst stk1 stk2].
         + destruct stk; [exact Hst|simpl in B1; discriminate B1].
         + simpl in B1. discriminate B1.
       - assert (Hcr : forall l0, In l0 r -> covered l0) by (intros l0 H0; apply Hcov; right; exact H0).
-        destruct l as [id c|id c|id| |m|m|f|];
-          try (match goal with
-               | |- strel (run_lines _ _ _ _ _ (?L :: _) _ _) _ =>
-                 simpl in B1, B2 |- *;
-                 destruct (step K M opq cur L stk1 s1) as [stk1' s1'] eqn:E1;
-                 destruct (step K M opq cur L stk2 s2) as [stk2' s2'] eqn:E2;
-                 assert (B1' : bad (snd (step K M opq cur L stk1 s1)) = false)
-                   by (rewrite E1; simpl; destruct (bad s1') eqn:Eb; [|reflexivity];
-                       rewrite (run_lines_bad_mono rec_file rec_mono cur r stk1' s1' Eb) in B1; discriminate B1);
-                 assert (B2' : bad (snd (step K M opq cur L stk2 s2)) = false)
-                   by (rewrite E2; simpl; destruct (bad s2') eqn:Eb; [|reflexivity];
-                       rewrite (run_lines_bad_mono rec_file rec_mono cur r stk2' s2' Eb) in B2; discriminate B2);
-                 assert (Hni : forall f0, L <> LInclude f0) by (intros f0; discriminate);
-                 destruct (step_sim cur L stk1 s1 stk2 s2 Hni (Hcov L (or_introl eq_refl)) Hstk Hst B1' B2') as [Hstk' Hst'];
-                 rewrite E1, E2 in Hstk', Hst'; simpl in Hstk', Hst';
-                 apply IH; assumption
-               end).
-        (* LInclude *)
-        simpl in B1, B2 |- *. unfold chk_k in *.
-        destruct Hst as [Ho [Hs [Ht He]]].
-        inversion Hstk as [stk Hn|f1 f2 r' K1 K2 Hp Hn]; subst.
-        + assert (Hk : in_k stk = false) by (destruct stk as [|g r']; [reflexivity|simpl; apply (Hn g); left; reflexivity]).
-          rewrite Hk in *. rewrite <- Ho in *.
-          destruct (active stk && negb (mem_nat f (once s1))).
-          * assert (Hst0 : strel s1 s2) by (unfold strel; auto).
-            assert (R1 : bad (rec_file f s1) = false).
-            { destruct (bad (rec_file f s1)) eqn:Eb; [|reflexivity].
-              rewrite (run_lines_bad_mono rec_file rec_mono cur r stk _ Eb) in B1. discriminate B1. }
-            assert (R2 : bad (rec_file f s2) = false).
-            { destruct (bad (rec_file f s2)) eqn:Eb; [|reflexivity].
-              rewrite (run_lines_bad_mono rec_file rec_mono cur r stk _ Eb) in B2. discriminate B2. }
-            apply IH; auto.
-          * apply IH; auto. unfold strel; auto.
-        + simpl in B1. rewrite K1 in B1.
-          assert (Eb : bad (set_bad s1) = true) by reflexivity.
-          destruct (on f1 && negb (mem_nat f (once (set_bad s1)))).
-          * rewrite (run_lines_bad_mono rec_file rec_mono cur r _ _ (rec_mono f _ Eb)) in B1. discriminate B1.
-          * rewrite (run_lines_bad_mono rec_file rec_mono cur r _ _ Eb) in B1. discriminate B1.
+        destruct (not_include_dec l) as [Hni|[f Hf]].
+        + rewrite run_lines_cons in B1, B2 |- * by exact Hni.
+          assert (B1' : bad (snd (step K M opq cur l stk1 s1)) = false).
+          { destruct (bad (snd (step K M opq cur l stk1 s1))) eqn:Eb; [|reflexivity].
+            rewrite (run_lines_bad_mono rec_file rec_mono cur r _ _ Eb) in B1. discriminate B1. }
+          assert (B2' : bad (snd (step K M opq cur l stk2 s2)) = false).
+          { destruct (bad (snd (step K M opq cur l stk2 s2))) eqn:Eb; [|reflexivity].
+            rewrite (run_lines_bad_mono rec_file rec_mono cur r _ _ Eb) in B2. discriminate B2. }
+          destruct (step_sim cur l stk1 s1 stk2 s2 Hni (Hcov l (or_introl eq_refl)) Hstk Hst B1' B2') as [Hstk' Hst'].
+          apply IH; assumption.
+        + subst l. rewrite run_lines_include in B1, B2 |- *. unfold chk_k in *.
+          destruct Hst as [Ho [Hs [Ht He]]].
+          destruct (stkrel_inv _ _ Hstk) as [[E Hn]|(f1 & f2 & r' & E1 & E2 & K1 & K2 & Hp & Hn)]; [subst stk2; rename stk1 into stk|subst stk1 stk2].
+          * assert (Hk : in_k stk = false) by (destruct stk as [|g r']; [reflexivity|simpl; apply (Hn g); left; reflexivity]).
+            rewrite Hk in *. rewrite <- Ho in *.
+            assert (Hst0 : strel s1 s2) by (unfold strel; auto).
+            destruct (active stk && negb (mem_nat f (once s1))).
+            -- assert (R1 : bad (rec_file f s1) = false).
+               { destruct (bad (rec_file f s1)) eqn:Eb; [|reflexivity].
+                 rewrite (run_lines_bad_mono rec_file rec_mono cur r stk _ Eb) in B1. discriminate B1. }
+               assert (R2 : bad (rec_file f s2) = false).
+               { destruct (bad (rec_file f s2)) eqn:Eb; [|reflexivity].
+                 rewrite (run_lines_bad_mono rec_file rec_mono cur r stk _ Eb) in B2. discriminate B2. }
+               apply IH; auto.
+            -- apply IH; auto.
+          * simpl in B1. rewrite K1 in B1.
+            assert (Eb : bad (set_bad s1) = true) by reflexivity.
+            destruct (on f1 && negb (mem_nat f (once (set_bad s1)))).
+            -- rewrite (run_lines_bad_mono rec_file rec_mono cur r _ _ (rec_mono f _ Eb)) in B1. discriminate B1.
+            -- rewrite (run_lines_bad_mono rec_file rec_mono cur r _ _ Eb) in B1. discriminate B1.
     Qed.
   End LinesSim.
 
